@@ -265,6 +265,13 @@ func init() {
 		in.advance(args[0].(*Term))
 		return nil
 	}
+	// verifHoldTimers(true): timers no longer fire by themselves at quiescence; they fire only when verifAdvance
+	// moves the clock past their deadline (lets a harness decide when a timeout elapses)
+	verifIntrinsics["verifHoldTimers"] = func(in *Interp, th *Thread, fn *ssa.Function, args []Value) Value {
+		c := args[0].(*Term)
+		in.holdTimers = c.IsConst() && c.IsTrue()
+		return nil
+	}
 	verifIntrinsics["verifNow"] = func(in *Interp, th *Thread, fn *ssa.Function, args []Value) Value {
 		return in.clock()
 	}
